@@ -822,6 +822,10 @@ def run(ctx):
     # optimize_width measures a row by its last cell: a covered cell is a cell (rule shared with C01)
     from .c01 import r01l
     r01l(ctx)
+    # set_span, set_cells, set_values and transpose(coord) write cell after cell through Row.set_cell: each write must leave the row's position map in step with its XML,
+    # or the next cell of the same call lands on the wrong column (position-map protocol, shared with C02)
+    from .c02 import r02ab
+    r02ab(ctx, tom)
 
 
 from ..selftest import Seed, unparse_seed  # noqa: E402
